@@ -177,7 +177,8 @@ def run(chk, prog):
         chk.finding("invalidate", cc.key, "store-none", "", "%s:%s" % (cc.file, cc.line), "clear_connection no longer empties the connection cache")
     gc = prog.body_of(prog.one(r"^connectors::quic::QuicConnector::get_connection$"))
     cr = [c for c in gc.calls if re.search(r"quic::QuicConnector::create_connection$", c.name or "")]
-    oks = [b for b in gc.reachable for st in gc.stmts(b) if st["k"] == "assign" and st["lhs"][0] == 0 and st["rv"]["k"] == "agg" and st["rv"].get("variant") == "Ok"]
+    from ..flow import result_blocks
+    oks = result_blocks(gc, "Ok")
     # an Ok return not preceded by create_connection must be dominated by a Some edge of the cache
     ok = bool(cr) and bool(oks)
     chk.instance("invalidate", "%s:%s" % (gc.file, gc.line), "get_connection creates a new connection when the cache is empty", ok)
